@@ -438,6 +438,8 @@ class Inliner:
             roots = [st.value]
         elif isinstance(st, ast.AugAssign):
             roots = [st.value] if isinstance(st.target, ast.Name) else []
+        elif isinstance(st, ast.Raise) and st.exc is not None:
+            roots = [st.exc]
         for r in roots:
             visit(r)
         for kind, n in order:
@@ -452,7 +454,9 @@ class Inliner:
 
     def _expand(self, st, cls_name, local_names):
         """-> replacement statement list or None"""
-        if not isinstance(st, (ast.Assign, ast.AnnAssign, ast.AugAssign, ast.Expr, ast.Return)):
+        if not isinstance(st, (ast.Assign, ast.AnnAssign, ast.AugAssign, ast.Expr, ast.Return, ast.Raise)):
+            return None
+        if isinstance(st, ast.Raise) and (st.exc is None or not isinstance(st.exc, ast.Call)):
             return None
         fc = self._first_call(st, cls_name, local_names)
         if fc is None:
@@ -460,12 +464,14 @@ class Inliner:
         call, h = fc
         if h.free & local_names:
             return None
+        if isinstance(st, ast.Raise) and st.exc is not call:
+            return None  # only `raise helper(..)`: the helper builds the exception object
         pre = []
         sub = self._bind(h, call, pre)
         if sub is None:
             return None
         body = [sub.visit(_clone(s)) for s in h.tail]
-        whole = getattr(st, "value", None) is call
+        whole = getattr(st, "value", None) is call or (isinstance(st, ast.Raise) and st.exc is call)
         if h.kind == "straight":
             ret = body[-1].value
             new_st = _replace_node(st, call, ret)
@@ -481,6 +487,8 @@ class Inliner:
                 mk = lambda e: ast.Assign(targets=[_clone(st.target)], value=e)  # noqa: E731
             elif isinstance(st, ast.Return):
                 mk = lambda e: ast.Return(value=e)  # noqa: E731
+            elif isinstance(st, ast.Raise):
+                mk = lambda e: ast.Raise(exc=e, cause=_clone(st.cause) if st.cause is not None else None)  # noqa: E731
             elif isinstance(st, ast.Expr):
                 mk = lambda e: ast.Expr(value=e) if not pure(e) else ast.Pass()  # noqa: E731
             else:
@@ -1820,6 +1828,24 @@ def normalise_table_unroll(tree):
         return {x.id for x in ast.walk(fn) if isinstance(x, ast.Name) and isinstance(x.ctx, (ast.Store, ast.Del))} | {a.arg for a in fn.args.posonlyargs + fn.args.args + fn.args.kwonlyargs}
 
     fns = [f for f in ast.walk(tree) if isinstance(f, (ast.FunctionDef, ast.AsyncFunctionDef))]
+    # module level: a comprehension over a literal table in a plain assignment (`T = {row[K]: row[V] for row in (A, B, C)}`)
+    for st in tree.body:
+        if isinstance(st, (ast.Assign, ast.AnnAssign)) and st.value is not None and isinstance(st.value, (ast.ListComp, ast.SetComp, ast.DictComp)):
+            v = st.value
+            if len(v.generators) == 1 and not v.generators[0].ifs and not v.generators[0].is_async:
+                g = v.generators[0]
+                tab = g.iter if isinstance(g.iter, (ast.Tuple, ast.List)) else (mod_tables.get(g.iter.id) if isinstance(g.iter, ast.Name) else None)
+                rows = rows_of(tab, g.target) if tab is not None else None
+                if rows is not None:
+                    if isinstance(v, ast.DictComp):
+                        new_v = ast.Dict(keys=[subst(v.key, r) for r in rows], values=[subst(v.value, r) for r in rows])
+                    elif isinstance(v, ast.ListComp):
+                        new_v = ast.List(elts=[subst(v.elt, r) for r in rows], ctx=ast.Load())
+                    else:
+                        new_v = ast.Set(elts=[subst(v.elt, r) for r in rows])
+                    st.value = ast.copy_location(new_v, v)
+                    ast.fix_missing_locations(st)
+                    n += 1
     for fn in fns:
         own = [x for x in ast.walk(fn)]
         # comprehensions
@@ -2596,6 +2622,60 @@ def normalise_chain_loops(tree):
     return n
 
 
+def normalise_value_functions(tree, known):
+    """a new module-level `def g(a, b): return E` / `def g(a, b): a.x = b` (one statement) that is handed around as a value
+    (`f(.., g, ..)`) is, at those places, the function `lambda a, b: E` / `lambda a, b: setattr(a, "x", b)` (both return what the
+    def returns: E, or None)"""
+    n = 0
+    for g in [st for st in tree.body if isinstance(st, ast.FunctionDef)]:
+        if g.decorator_list or g.name in known or g.args.vararg or g.args.kwarg or g.args.kwonlyargs or g.args.defaults:
+            continue
+        body = [b for b in g.body if not (isinstance(b, ast.Expr) and isinstance(b.value, ast.Constant))]
+        params = {a.arg for a in g.args.posonlyargs + g.args.args}
+        if len(body) != 1:
+            continue
+        b = body[0]
+        if isinstance(b, ast.Return) and b.value is not None:
+            expr = b.value
+        elif isinstance(b, ast.Assign) and len(b.targets) == 1 and isinstance(b.targets[0], ast.Attribute) and isinstance(b.targets[0].value, ast.Name) \
+                and b.targets[0].value.id in params and not b.targets[0].attr.startswith("__"):
+            expr = ast.Call(func=ast.Name(id="setattr", ctx=ast.Load()), args=[_clone(b.targets[0].value), ast.Constant(value=b.targets[0].attr), _clone(b.value)], keywords=[])
+            for x in ast.walk(expr):
+                if isinstance(x, ast.Name):
+                    x.ctx = ast.Load()
+        elif isinstance(b, ast.Expr) and isinstance(b.value, ast.Call) and isinstance(b.value.func, ast.Name) and b.value.func.id in ("setattr", "delattr"):
+            expr = b.value
+        else:
+            continue
+        if any(isinstance(x, (ast.Yield, ast.YieldFrom, ast.Await, ast.NamedExpr, ast.Lambda)) for x in ast.walk(expr)) or any(isinstance(x, ast.Name) and x.id == g.name for x in ast.walk(expr)):
+            continue
+        stores = [x for x in ast.walk(tree) if isinstance(x, ast.Name) and x.id == g.name and isinstance(x.ctx, (ast.Store, ast.Del))]
+        if stores:
+            continue
+        callee_ids = {id(c.func) for c in ast.walk(tree) if isinstance(c, ast.Call)}
+        value_uses = [x for x in ast.walk(tree) if isinstance(x, ast.Name) and x.id == g.name and isinstance(x.ctx, ast.Load) and id(x) not in callee_ids]
+        if not value_uses:
+            continue
+        largs = _clone(g.args)
+        for a_ in largs.posonlyargs + largs.args:
+            a_.annotation = None
+            a_.type_comment = None
+        lam = ast.Lambda(args=largs, body=expr)
+        ids = {id(x) for x in value_uses}
+
+        class R(ast.NodeTransformer):
+            def visit_Name(self, node):
+                if id(node) in ids:
+                    return ast.copy_location(_clone(lam), node)
+                return node
+
+        R().visit(tree)
+        n += len(value_uses)
+    if n:
+        ast.fix_missing_locations(tree)
+    return n
+
+
 def normalise_local_lambdas(tree, known):
     """a nested `def g(a, b): [del b]; return E` that is new with respect to the pinned inventory and whose name is only read in the
     enclosing function is the value `lambda a, b: E` (deleting an unused parameter has no effect); uses of g become that lambda."""
@@ -2725,6 +2805,7 @@ def normalise_program(trees):
             k_ += normalise_partial(tree, set(known0))
             k_ += normalise_local_lambdas(tree, set(known0))
             k_ += normalise_local_procs(tree, set(known0))
+            k_ += normalise_value_functions(tree, set(known0))
             for x_ in ast.walk(tree):
                 if hasattr(x_, "_parent"):
                     del x_._parent
